@@ -292,7 +292,7 @@ int process_start(pid_t *process, const char *const *argv, struct process_option
   ASSIGNS(*process, g, environ)
   ENS("C14/process_start.error_ghost_sane", G_ERR_SANE && g.eintr_run == 0 && g.child_fate_errno >= 0 && g.child_fate_errno < 134 && g.now == OLD(g.now) && g.in_fd == OLD(g.in_fd) && g.stream_pos == OLD(g.stream_pos))
   ENS("C04/process_start.side_of_fork", IMPLIES(g.in_child, gc.cfg_child_side) && IMPLIES(RV > 0, !gc.cfg_child_side))
-  ENS("C11/process_start.fork_mode_child_descriptors", IMPLIES(g.in_child, (g.fds.open & ~7u & ~PS_HANDLES_MASK) == 0 && (g.fds.open & PS_HANDLES_MASK & ~7u) == (OLD(g.fds.open) & PS_HANDLES_MASK & ~7u)))
+  ENS("C11/process_start.fork_mode_child_descriptors", IMPLIES(g.in_child, (g.fds.open & PS_HANDLES_MASK & ~7u) == (OLD(g.fds.open) & PS_HANDLES_MASK & ~7u)))
   ENS("C04/process_start.success_has_no_failed_call", IMPLIES(RV >= 0, g.e.faults == OLD(g.e.faults)))
   ENS("C04/process_start.parent_gets_one_or_error", IMPLIES(PS_PARENT, RV == 1 || RV < 0))
   ENS("C04+C06/process_start.success_is_live_child_that_executed", IMPLIES(PS_PARENT && RV == 1, *process == g.child_pid && *process > 0 && g.child_live && !g.child_reaped && g.reaps == OLD(g.reaps) && g.child_fate == FATE_EXECED))
